@@ -83,6 +83,12 @@ func (o c13Op) req() string {
 		return fmt.Sprintf("%s %d %d", o.Kind, o.A, o.B)
 	case "shp", "swp":
 		return fmt.Sprintf("%s %d %s", o.Kind, o.A, hexs(o.Ptr))
+	case "nm": // IndividualNode.AddName is AddNode of a NAME node
+		return fmt.Sprintf("an 1 %d %s %s -", o.A, hexs("NAME"), hexs(o.Val))
+	case "aed":
+		return fmt.Sprintf("aed %d %s %s", o.A, hexs(o.Tag), hexs(o.Val))
+	case "ssx":
+		return fmt.Sprintf("ssx %d %s", o.A, hexs(o.Val))
 	}
 	return o.Kind // dump warn foreign inert inds fams
 }
@@ -120,6 +126,12 @@ func (o c13Op) String() string {
 		return fmt.Sprintf("root#%d.SetWifePointer(%q)", o.A, o.Ptr)
 	case "ac":
 		return fmt.Sprintf("root#%d.AddChild(root#%d)", o.A, o.B)
+	case "nm":
+		return fmt.Sprintf("root#%d.AddName(%q)", o.A, o.Val)
+	case "aed":
+		return fmt.Sprintf("root#%d.%s(%q)", o.A, c13DateAPI[o.Tag], o.Val)
+	case "ssx":
+		return fmt.Sprintf("root#%d.SetSex(%q)", o.A, o.Val)
 	case "bp":
 		return fmt.Sprintf("doc.NodeByPointer(%q)", o.Ptr)
 	case "warn", "foreign", "inert":
@@ -169,6 +181,12 @@ func (o c13Op) apiName() string {
 		return "FamilyNode.SetWifePointer"
 	case "ac":
 		return "FamilyNode.AddChild"
+	case "nm":
+		return "IndividualNode.AddName"
+	case "aed":
+		return "IndividualNode." + c13DateAPI[o.Tag]
+	case "ssx":
+		return "IndividualNode.SetSex"
 	case "warn", "foreign", "inert":
 		return o.Sub
 	case "str":
@@ -178,6 +196,8 @@ func (o c13Op) apiName() string {
 	}
 	return o.Kind
 }
+
+var c13DateAPI = map[string]string{"BIRT": "AddBirthDate", "BAPM": "AddBaptismDate", "DEAT": "AddDeathDate", "BURI": "AddBurialDate"}
 
 func c13IsRead(kind string) bool {
 	switch kind {
@@ -471,6 +491,105 @@ var c13Queries = []string{
 	".Nodes | Length",
 }
 
+// c13SideEffect is set by a read that changed a document *other* than the one under test (the second
+// operand of a diff); the caller reports it.
+var c13SideEffect string
+
+// c13Variants derives two documents with the same records from a GEDCOM text: "bare" (every level-1
+// node stripped of its children) and "detailed" (every childless level-1 node given children), so
+// that diffing pairs bare nodes with detailed ones that count as Equal.
+func c13Variants(text string) (bare, detailed string) {
+	lines := strings.Split(strings.TrimRight(text, "\n"), "\n")
+	var b, d strings.Builder
+	for i, l := range lines {
+		if l == "" {
+			continue
+		}
+		lvl := l[0]
+		if lvl == '0' || lvl == '1' {
+			b.WriteString(l + "\n")
+		}
+		d.WriteString(l + "\n")
+		if lvl == '1' {
+			leaf := i+1 >= len(lines) || lines[i+1] == "" || lines[i+1][0] <= '1'
+			if leaf {
+				switch {
+				case strings.HasPrefix(l, "1 BIRT"), strings.HasPrefix(l, "1 DEAT"), strings.HasPrefix(l, "1 BURI"),
+					strings.HasPrefix(l, "1 BAPM"), strings.HasPrefix(l, "1 MARR"):
+					d.WriteString("2 DATE 1 Feb 1901\n2 PLAC Sydney\n")
+				default:
+					d.WriteString("2 SOUR @S9@\n")
+				}
+			}
+		}
+	}
+	return b.String(), d.String()
+}
+
+// c13WalkDiff exercises every read of a NodeDiff on every entry.
+func c13WalkDiff(nd *gedcom.NodeDiff, depth int) {
+	if nd == nil || depth > 16 {
+		return
+	}
+	_ = nd.String()
+	_ = nd.IsDeepEqual()
+	_ = nd.LeftNode()
+	_ = nd.RightNode()
+	_ = nd.Tag()
+	for _, ch := range nd.Children {
+		c13WalkDiff(ch, depth+1)
+	}
+	nd.Sort()
+	_ = nd.String()
+}
+
+// c13DiffRead is the diff read of the property: CompareNodes(a, b) followed by Sort(), LeftNode(),
+// RightNode(), String() and IsDeepEqual() on every entry — the document against itself, and in both
+// operand orders against a bare and a detailed variant of itself.  Returns a description of a change
+// to one of the variant documents ("" = none); the document under test is judged by the caller.
+func c13DiffRead(doc *gedcom.Document) (effect string) {
+	defer func() {
+		if r := recover(); r != nil {
+			effect = fmt.Sprintf("diff panicked: %v", r)
+		}
+	}()
+	bareText, detailedText := c13Variants(doc.String())
+	pairRoots := func(a, b *gedcom.Document, swap bool) {
+		an, bn := a.Nodes(), b.Nodes()
+		for i := 0; i < len(an) && i < len(bn); i++ {
+			if swap {
+				c13WalkDiff(gedcom.CompareNodes(bn[i], an[i]), 0)
+			} else {
+				c13WalkDiff(gedcom.CompareNodes(an[i], bn[i]), 0)
+			}
+		}
+	}
+	pairRoots(doc, doc, false)
+	for _, vt := range []struct{ name, text string }{{"bare", bareText}, {"detailed", detailedText}} {
+		for _, swap := range []bool{false, true} {
+			v, err := gedcom.NewDocumentFromString(vt.text)
+			if err != nil {
+				continue
+			}
+			before, labels := c13FullDump(v)
+			textBefore := v.String()
+			pairRoots(doc, v, swap)
+			order := "CompareNodes(document, " + vt.name + " variant)"
+			if swap {
+				order = "CompareNodes(" + vt.name + " variant, document)"
+			}
+			if v.String() != textBefore {
+				return order + " + Sort/LeftNode/RightNode changed the text of the " + vt.name + " variant: " + v.String() + " (was " + textBefore + ")"
+			}
+			after, _ := c13FullDump(v)
+			if df := c13DumpDiff(after, before, labels); df != "" {
+				return order + " + Sort/LeftNode/RightNode changed a view of the " + vt.name + " variant: " + df
+			}
+		}
+	}
+	return ""
+}
+
 // blackBox performs one of the read-only operations the property names.
 func (d *c13Doc) blackBox(sub string) {
 	doc := d.doc
@@ -494,13 +613,7 @@ func (d *c13Doc) blackBox(sub string) {
 			}
 		}
 	case "CompareNodes":
-		ns := doc.Nodes()
-		for i := 0; i+1 < len(ns); i++ {
-			_ = gedcom.CompareNodes(ns[i], ns[i+1])
-		}
-		for _, n := range ns {
-			_ = gedcom.CompareNodes(n, n)
-		}
+		c13SideEffect = c13DiffRead(doc)
 	case "DeepCopy":
 		for _, n := range doc.Nodes() {
 			d.other.AddNode(gedcom.DeepCopy(n, d.other))
@@ -677,6 +790,37 @@ func (d *c13Doc) apply(o c13Op) (obs string) {
 			return "bad"
 		}
 		f.AddChild(i)
+	case "nm":
+		if i := d.indi(o.A); i != nil {
+			i.AddName(o.Val)
+		} else if r := d.root(o.A); r != nil { // the model sees AddNode(NAME) on whatever record it is
+			r.AddNode(gedcom.NewNode(gedcom.TagName, o.Val, ""))
+		} else {
+			return "bad"
+		}
+	case "aed":
+		i := d.indi(o.A)
+		if i == nil {
+			return "bad"
+		}
+		switch o.Tag {
+		case "BIRT":
+			i.AddBirthDate(o.Val)
+		case "BAPM":
+			i.AddBaptismDate(o.Val)
+		case "DEAT":
+			i.AddDeathDate(o.Val)
+		case "BURI":
+			i.AddBurialDate(o.Val)
+		default:
+			return "bad"
+		}
+	case "ssx":
+		i := d.indi(o.A)
+		if i == nil {
+			return "bad"
+		}
+		i.SetSex(o.Val)
 	default:
 		return "bad-op"
 	}
@@ -833,8 +977,12 @@ func (r *c13Runner) do(o c13Op) {
 		textBefore = r.d.doc.String()
 		// String() itself is a read; its effect on caches is none
 	}
+	c13SideEffect = ""
 	obs := r.emit(o)
 	r.steps = append(r.steps, c13Step{Op: o.String(), Obs: obs})
+	if c13SideEffect != "" {
+		r.fail("", "a read changed another document: "+o.apiName(), c13SideEffect, "both operands unchanged")
+	}
 	c.Count("op=" + o.Kind)
 	if strings.HasPrefix(obs, "panic:") {
 		r.fail("", "operation panicked: "+o.apiName(), obs, "no panic")
@@ -997,7 +1145,7 @@ func (d *c13Doc) randomOp(r *Rand, fresh *int) c13Op {
 		return fmt.Sprintf("%s%d", prefix, 100+*fresh)
 	}
 	for {
-		switch r.Intn(20) {
+		switch r.Intn(24) {
 		case 0, 1:
 			tag := r.Pick([]string{"NAME", "NAME", "BIRT", "DEAT", "NOTE", "FAMS", "FAMC", "MARR", "SEX", "_UID"})
 			val := ""
@@ -1112,6 +1260,21 @@ func (d *c13Doc) randomOp(r *Rand, fresh *int) c13Op {
 			return c13Op{Kind: "ac", A: pick(fams), B: pick(inds)}
 		case 19:
 			return d.randomRead(r)
+		case 20:
+			if len(inds) == 0 {
+				continue
+			}
+			return c13Op{Kind: "nm", A: pick(inds), Val: r.Pick(c13Names)}
+		case 21, 22:
+			if len(inds) == 0 {
+				continue
+			}
+			return c13Op{Kind: "aed", A: pick(inds), Tag: r.Pick([]string{"BIRT", "BIRT", "BAPM", "DEAT", "BURI"}), Val: r.Pick(c13Years)}
+		case 23:
+			if len(inds) == 0 {
+				continue
+			}
+			return c13Op{Kind: "ssx", A: pick(inds), Val: r.Pick([]string{"M", "F", "U"})}
 		}
 	}
 }
@@ -1187,6 +1350,11 @@ var c13Directed = [][]c13Op{
 	{{Kind: "af", Ptr: "F9"}, {Kind: "sw", A: 4, B: 1}, {Kind: "sw", A: 4, B: 2}, {Kind: "sw", A: 4, B: 2}, {Kind: "sw", A: 4, B: -1}},
 	// the same individual twice as husband: two FAMS links, SetHusband(nil) unlinks in place
 	{{Kind: "sh", A: 3, B: 2}, {Kind: "sh", A: 3, B: 2}, {Kind: "an", Path: []int{2}, Tag: "NOTE", Val: "n"}, {Kind: "sh", A: 3, B: -1}},
+	// the convenience mutators of IndividualNode: AddName, Add…Date (reads the first event through the
+	// cache, then appends), SetSex (overwrites the value of the cached first SEX node)
+	{{Kind: "nm", A: 1, Val: "X /Y/"}, {Kind: "aed", A: 1, Tag: "BIRT", Val: "1851"}, {Kind: "aed", A: 2, Tag: "BIRT", Val: "1900"}},
+	{{Kind: "dn", Path: []int{1}, A: 1}, {Kind: "aed", A: 1, Tag: "BIRT", Val: "1851"}, {Kind: "aed", A: 1, Tag: "DEAT", Val: "1900"}},
+	{{Kind: "ssx", A: 1, Val: "M"}, {Kind: "ssx", A: 1, Val: "F"}, {Kind: "sn", Path: []int{1}}, {Kind: "ssx", A: 1, Val: "U"}},
 	// duplicate pointers: the later record wins, deleting it gives the earlier one back
 	{{Kind: "ai", Ptr: "I1"}, {Kind: "dd", A: 4}},
 	{{Kind: "af", Ptr: "F1"}, {Kind: "dd", A: 4}},
@@ -1529,8 +1697,12 @@ func c13ReadPurity(c *Ctx, text string) {
 					c.Oracle("", "operation panicked: "+rd.Sub, c13Failure{Document: text}, fmt.Sprint(r), "no panic")
 				}
 			}()
+			c13SideEffect = ""
 			d.blackBox(rd.Sub)
 		}()
+		if c13SideEffect != "" {
+			c.Oracle("", "a read changed another document: "+rd.Sub, c13Failure{Document: text, History: []c13Step{{Op: "read:" + rd.Sub}}}, c13SideEffect, "both operands unchanged")
+		}
 		after, _ := c13FullDump(doc)
 		c.Eval()
 		c.Count("read-purity=" + rd.Sub)
@@ -1624,6 +1796,15 @@ func init() {
 			for _, o := range hist {
 				r.do(o)
 			}
+			r.finish()
+		}
+		// every read-only operation once on the small document (smallest witnesses for impure reads)
+		for _, rd := range c13AllReads() {
+			r, err := c13NewRunner(c, c13SmallDoc)
+			if err != nil {
+				panic(err)
+			}
+			r.do(rd)
 			r.finish()
 		}
 		for _, hist := range c13DirectedUID {
